@@ -172,6 +172,24 @@ def run(check):
                 idx += 1
                 items.append((c2, s2, g))
 
+        # the workflow's output needs no step at all (workflow input only): the run is over as soon as the steps are launched, and
+        # every one of them is closed before it returns
+        for j in range(check.pick(30, 150)):
+            rng = random.Random(derive_seed(check.seed, "c05-nosteps", j))
+            k = rng.choice([1, 3, 6])
+            steps = [gen.plugin_step("p%d" % q, Expr(In("tag"))) for q in range(k)]
+            if j % 4 == 3:
+                steps.append(Step("loop", "foreach", sub=gen.sub_program("sub.yaml", 1), items=Expr(In("items"))))
+            prog = Program(steps, {"success": {"name": Expr(In("tag"))}}, gen.BASE_INPUT)
+            scripts = gen.make_scripts(steps, {})
+            if j % 3 == 1:
+                for st in steps[:2]:
+                    if st.kind == "plugin":
+                        scripts[st.src]["deploys"] = [{}, {"delay_ms": rng.choice([10, 30])}]
+            g = {"program": prog, "scripts": scripts, "input": cancelfam.base_input(rng), "shape": "output-needs-no-step/%d-steps" % len(steps), "fault": ("output-needs-no-step", k, "")}
+            c2, s2 = runfam.build_case("c05-%05d" % idx, g)
+            idx += 1
+            items.append((c2, s2, g))
         # the same with a step whose shutdown takes longer than any grace period the engine has (an uninterruptible deployment of
         # 5.6 s - and 10.6 s for a cancelled run - still in flight when the result is ready): the run returns once it is over
         for j, (ms, cancel) in enumerate([(5600, False), (5600, False), (10600, True)][:check.pick(2, 3)]):
